@@ -737,6 +737,9 @@ def _l5(model, rep):
         def __init__(self, k):
             self.k = k
 
+        def __repr__(self):
+            return f"basis{self.k}"
+
         def skv_getattr(self, name):
             if name == "N":
                 return Poly.sym(f"N{self.k}")
@@ -825,6 +828,53 @@ def _l5(model, rep):
        "CompositeBasis.interpolate",
        "interpolate slices the vector differently from element_dofs/split",
        cls.methods["interpolate"].lineno)
+    # ---- the shared numbering (basis0 @ basis1: equal_dofnum=True): every
+    # component reads and writes the *same* DOF vector - element_dofs adds
+    # no offset, N is the common N, and split / interpolate hand every
+    # component the whole vector
+    xs = X()
+
+    def mk_shared():
+        return Obj(cls, {"bases": bases, "equal_dofnum": True,
+                         "_element_dofs": None, "_basis": None})
+
+    def call_s(name, *args):
+        try:
+            return Interp(model, call_hook=hook).call(
+                cls.methods[name], list(args), {}, self_obj=mk_shared())
+        except (Unsupported, Raised) as e:
+            return ("failed", str(e))
+    ed = call_s("element_dofs")
+    _v(rep, L5, isinstance(ed, list) and len(ed) == K and all(
+        Poly.coerce(a) == Poly.sym(f"ed{k}") for k, a in enumerate(ed)),
+       "CompositeBasis.element_dofs:shared-numbering",
+       "with equal_dofnum the rows of every component are unshifted", path,
+       "CompositeBasis.element_dofs",
+       f"with equal_dofnum the rows are {ed}", cls.methods[
+           "element_dofs"].lineno)
+    sp = call_s("split", xs)
+    oks = isinstance(sp, list) and len(sp) == K and all(
+        isinstance(pr, tuple) and len(pr) == 2 and pr[0] is xs
+        and pr[1] is bases[k] for k, pr in enumerate(sp))
+    _v(rep, L5, oks, "CompositeBasis.split:shared-numbering",
+       "with equal_dofnum every component receives the whole vector", path,
+       "CompositeBasis.split",
+       f"with equal_dofnum (basis0 @ basis1) split cuts the shared vector "
+       f"as if the DOFs were concatenated ({str(sp)[:80]}): the second "
+       f"component receives an empty vector, silently", cls.methods[
+           "split"].lineno)
+    ip = call_s("interpolate", xs)
+    oki = isinstance(ip, (tuple, list)) and len(ip) == K and all(
+        isinstance(r, tuple) and r[0] == "interp" and r[1] == k
+        and r[2] is xs for k, r in enumerate(ip))
+    _v(rep, L5, oki, "CompositeBasis.interpolate:shared-numbering",
+       "with equal_dofnum every component interpolates the whole vector",
+       path, "CompositeBasis.interpolate",
+       f"with equal_dofnum (basis0 @ basis1) interpolate slices the shared "
+       f"vector as if the DOFs were concatenated ({str(ip)[:80]}): a vector "
+       f"of length N raises 'Input array has wrong size', so no form can "
+       f"take a coefficient vector on such a basis", cls.methods[
+           "interpolate"].lineno)
 
 
 def _composite_padding(model, rep):
@@ -1027,6 +1077,15 @@ _LOCS = """            self.doflocs = np.array([
 _AS = "skfem/assembly/__init__.py"
 _ADI = "skfem/autodiff/__init__.py"
 MUTANTS = [
+    ("composite basis with a shared numbering splits per component",
+     ("skfem/assembly/basis/composite_basis.py",
+      "        if self.equal_dofnum:\n            # the bases share one "
+      "numbering\n            return [(x, basis) for basis in self.bases]\n",
+      ""), "C19-L5"),
+    ("composite basis with a shared numbering adds offsets",
+     ("skfem/assembly/basis/composite_basis.py",
+      "                if not self.equal_dofnum:\n                    offset "
+      "+= basis.N", "                offset += basis.N"), "C19-L5"),
     ("added functionals joined along the component axis",
      ("skfem/assembly/form/coo_data.py",
       "            data=np.concatenate((self.data, other.data)),",
